@@ -325,7 +325,7 @@ func runC13(r *Report, tier string) {
 	}
 	predTrue := func(ep *entryPath, class string) bool {
 		for _, c := range ep.conds {
-			if c.Val && c.Pred.Op == "call" && isClass[c.Pred.S] == class && len(c.Pred.Args) == 1 && c.Pred.Args[0].eq(V) {
+			if name, arg := P.predCallOf(c.Pred); c.Val && arg != nil && isClass[name] == class && arg.eq(V) {
 				return true
 			}
 		}
@@ -648,7 +648,7 @@ func runC13(r *Report, tier string) {
 					}
 					typed, present := false, false
 					for _, c := range p.conds {
-						if c.Val && c.Pred.Op == "call" && (isClass[c.Pred.S] == "int" || isClass[c.Pred.S] == "tstr") && strings.Contains(c.Pred.Args[0].String(), "index(") {
+						if name, arg := P.predCallOf(c.Pred); c.Val && arg != nil && (isClass[name] == "int" || isClass[name] == "tstr") && strings.Contains(arg.String(), "index(") {
 							typed = true
 						}
 						// presence test: a boolean in-package lookup (f(map, elem) or the found-flag of one) that is true
